@@ -150,6 +150,7 @@ type Rig struct {
 	held        []*heldTx
 	rigNonce    uint64
 	scanned     int64
+	voted       bool
 	restoreRand func()
 	closed      bool
 	started     time.Time
@@ -335,7 +336,8 @@ func (r *Rig) scanEvents() {
 // config votes (what handleOnChainKeyperSetChanges would schedule) and whatever the Byzantine
 // keypers' strategies release now.
 func (r *Rig) Tick(next int64) {
-	if next == r.Cfg.VoteHeight {
+	if next >= r.Cfg.VoteHeight && !r.voted {
+		r.voted = true
 		var addrs []common.Address
 		for _, k := range r.Keypers {
 			addrs = append(addrs, k.Address)
